@@ -293,6 +293,11 @@ func runScenario(f fault) (e *env, trace []string, probeErr string, censusLeft [
 	noDeadlineDone := make(chan error, 4)
 	noDeadlineIssued := 0
 	noDeadline := func() {
+		if f.Position2 > 0 {
+			// two-fault cases: the second scripted fault (a dropped or misaddressed response) may hit this request when it
+			// is sent again - without a deadline it then legitimately waits for good
+			return
+		}
 		mu.Lock()
 		cn := connRef
 		if cn != nil {
